@@ -245,6 +245,12 @@ func (loader *Loader) ResolveRefsIn(doc *T, location *url.URL) (err error) {
 				return
 			}
 		}
+		for _, name := range componentNames(components.Links) {
+			component := components.Links[name]
+			if err = loader.resolveLinkRef(doc, component, location); err != nil {
+				return
+			}
+		}
 	}
 
 	// Visit all operations
@@ -657,6 +663,53 @@ func (loader *Loader) resolveHeaderRef(doc *T, component *HeaderRef, documentPat
 			return err
 		}
 	}
+	if err := loader.resolveExamplesAndContentRefs(doc, value.Examples, value.Content, documentPath); err != nil {
+		return err
+	}
+	return nil
+}
+
+// resolveExamplesAndContentRefs resolves the references of an examples map and of the media types of a content map:
+// their schema, examples and encoding headers.
+func (loader *Loader) resolveExamplesAndContentRefs(doc *T, examples Examples, content Content, documentPath *url.URL) error {
+	for _, name := range componentNames(examples) {
+		if example := examples[name]; example != nil {
+			if err := loader.resolveExampleRef(doc, example, documentPath); err != nil {
+				return err
+			}
+		}
+	}
+	for _, name := range componentNames(content) {
+		mediaType := content[name]
+		if mediaType == nil {
+			continue
+		}
+		for _, name := range componentNames(mediaType.Examples) {
+			if example := mediaType.Examples[name]; example != nil {
+				if err := loader.resolveExampleRef(doc, example, documentPath); err != nil {
+					return err
+				}
+			}
+		}
+		if schema := mediaType.Schema; schema != nil {
+			if err := loader.resolveSchemaRef(doc, schema, documentPath, []string{}); err != nil {
+				return err
+			}
+		}
+		for _, name := range componentNames(mediaType.Encoding) {
+			encoding := mediaType.Encoding[name]
+			if encoding == nil {
+				continue
+			}
+			for _, name := range componentNames(encoding.Headers) {
+				if header := encoding.Headers[name]; header != nil {
+					if err := loader.resolveHeaderRef(doc, header, documentPath); err != nil {
+						return err
+					}
+				}
+			}
+		}
+	}
 	return nil
 }
 
@@ -721,6 +774,9 @@ func (loader *Loader) resolveParameterRef(doc *T, component *ParameterRef, docum
 		if err := loader.resolveSchemaRef(doc, schema, documentPath, []string{}); err != nil {
 			return err
 		}
+	}
+	if err := loader.resolveExamplesAndContentRefs(doc, value.Examples, value.Content, documentPath); err != nil {
+		return err
 	}
 	return nil
 }
@@ -788,6 +844,9 @@ func (loader *Loader) resolveRequestBodyRef(doc *T, component *RequestBodyRef, d
 				return err
 			}
 		}
+	}
+	if err := loader.resolveExamplesAndContentRefs(doc, nil, value.Content, documentPath); err != nil {
+		return err
 	}
 	return nil
 }
@@ -868,6 +927,9 @@ func (loader *Loader) resolveResponseRef(doc *T, component *ResponseRef, documen
 		if err := loader.resolveLinkRef(doc, link, documentPath); err != nil {
 			return err
 		}
+	}
+	if err := loader.resolveExamplesAndContentRefs(doc, nil, value.Content, documentPath); err != nil {
+		return err
 	}
 	return nil
 }
